@@ -14,6 +14,7 @@
 import Cello.Fail
 import CelloProofs.Lemmas.Fail
 import CelloProofs.Lemmas.FailSpec
+import CelloProofs.Lemmas.FailAux
 
 namespace Cello.Fail
 
@@ -197,21 +198,6 @@ theorem C12_array_assign_refuted :
       ({ ty := .int, items := [], nslots := 0 }, .raised .ValueError) := by decide
 
 /-! ## List -/
-
-theorem Lst.concatLoop_atomic (ty : Ty) : ∀ (vs : List Val) (l l' : Lst) (e : Exc), l.ty = ty →
-    (vs.any (fun v => !(assignTo ty v).isOk)) = false → l.concatLoop vs ≠ (l', .raised e) := by
-  intro vs
-  induction vs with
-  | nil => intro l l' e _ _ h; simp [Lst.concatLoop] at h
-  | cons v vs ih =>
-    intro l l' e hty hk h
-    simp only [List.any_cons, Bool.or_eq_false_iff, Bool.not_eq_false'] at hk
-    obtain ⟨hv, hvs⟩ := hk
-    simp only [Lst.concatLoop, Lst.push, hty] at h
-    cases ha : assignTo ty v with
-    | ok w => rw [ha] at h; simp only at h; exact ih _ l' e (by simp [hty]) hvs h
-    | raised x => simp [ha, R.isOk] at hv
-    | ub => simp [ha, R.isOk] at hv
 
 /-- **C12, List: failure is atomic** (outside the findings: concat from a source with a wrong-typed element, assign).
     In particular `List_Push` / `List_Push_At` of a wrong-typed element leave the list unchanged: the node is allocated and
@@ -410,27 +396,6 @@ theorem C12_raises_exactly_tuple (t : Tup) (op : Op) (hw : t.wf) (ho : op.argsOk
     | nil => simp [Tup.step, Tup.spec, R.exc?]
     | cons it rest => cases it <;> simp [Tup.step, Tup.spec, R.exc?]
 
-/-- `eq(item, t->items[i])` for an argument of the items' type -/
-theorem eqv_arg (ty : Ty) (hty : ty.isElemTy) (x v : Val) (hx : x.elemOf ty) (hv : v.elemOf ty) :
-    eqv v x = .ok (decide (v = x)) := by
-  obtain ⟨hx1, hx2⟩ := hx
-  obtain ⟨hv1, hv2⟩ := hv
-  cases ty <;> cases x <;> cases v <;> simp_all [eqv, Val.ty?, Ty.isElemTy]
-
-theorem findEq_arg (ty : Ty) (hty : ty.isElemTy) (v : Val) (hv : v.elemOf ty) :
-    ∀ (items : List Val) (i : Nat), (∀ x ∈ items, x.elemOf ty) →
-      ∃ r, findEq false v items i = .ok r ∧ (r.isSome ↔ v ∈ items) := by
-  intro items
-  induction items with
-  | nil => intro i _; exact ⟨none, by simp [findEq], by simp⟩
-  | cons x xs ih =>
-    intro i hall
-    have he := eqv_arg ty hty x v (hall x List.mem_cons_self) hv
-    obtain ⟨r, hr1, hr2⟩ := ih (i + 1) (fun y hy => hall y (List.mem_cons_of_mem _ hy))
-    by_cases hxv : v = x
-    · subst hxv; exact ⟨some i, by simp [findEq, he], by simp⟩
-    · exact ⟨r, by simp [findEq, he, hxv, hr1], by rw [hr2]; simp [List.mem_cons, hxv]⟩
-
 /-- **C12, Tuple_Rem: an absent element raises ValueError (fix e74ffe8); a present one is removed from a heap Tuple and
     refused (ValueError, nothing moved) on a stack Tuple (fix 616d615).** -/
 theorem C12_tuple_rem_raises_exactly (t : Tup) (ty : Ty) (hty : ty.isElemTy) (v : Val)
@@ -620,78 +585,6 @@ theorem C12_tree_assign_refuted :
 
 /-! ## String -/
 
-/-- a `print_to` that fails at its first segment, or into a String that is not on the heap, writes nothing -/
-theorem Str.printLoop_atomic_first (s s' : Str) (pos : Nat) (fmt : List FmtItem) (args : List Val) (e : Exc)
-    (hk : s.kf (.print pos fmt args) = false) (h : Str.printLoop s pos args fmt = (s', .raised e)) : s' = s := by
-  cases fmt with
-  | nil => simp [Str.printLoop] at h
-  | cons it rest =>
-    cases it with
-    | lit t =>
-      simp only [Str.kf, Bool.and_eq_false_iff, Bool.not_eq_false', decide_eq_false_iff_not] at hk
-      simp only [Str.printLoop, Str.write] at h
-      rcases hk with hk | hk
-      · simp [hk] at h; exact h.1.symm
-      · by_cases hh : s.alloc.nonHeap = true
-        · simp [hh] at h; exact h.1.symm
-        · simp only [hh, Bool.false_eq_true, if_false] at h
-          have : pos > s.s.length := by omega
-          simp [this] at h
-    | d =>
-      cases args with
-      | nil => simp [Str.printLoop] at h; exact h.1.symm
-      | cons a as =>
-        simp only [Str.kf, Bool.and_eq_false_iff, Bool.not_eq_false', decide_eq_false_iff_not] at hk
-        simp only [Str.printLoop, Str.write] at h
-        cases hc : cInt a with
-        | ok b =>
-          simp only [hc, R.isOk] at h hk
-          rcases hk with (hk | hk) | hk
-          · simp [hk] at h; exact h.1.symm
-          · by_cases hh : s.alloc.nonHeap = true
-            · simp [hh] at h; exact h.1.symm
-            · have : pos > s.s.length := by omega
-              simp [hh, this] at h
-          · cases hk
-        | raised x => simp [hc] at h; exact h.1.symm
-        | ub => simp [hc] at h
-    | s =>
-      cases args with
-      | nil => simp [Str.printLoop] at h; exact h.1.symm
-      | cons a as =>
-        simp only [Str.kf, Bool.and_eq_false_iff, Bool.not_eq_false', decide_eq_false_iff_not] at hk
-        simp only [Str.printLoop, Str.write] at h
-        cases hc : cStr a with
-        | ok b =>
-          simp only [hc, R.isOk] at h hk
-          rcases hk with (hk | hk) | hk
-          · simp [hk] at h; exact h.1.symm
-          · by_cases hh : s.alloc.nonHeap = true
-            · simp [hh] at h; exact h.1.symm
-            · have : pos > s.s.length := by omega
-              simp [hh, this] at h
-          · cases hk
-        | raised x => simp [hc] at h; exact h.1.symm
-        | ub => simp [hc] at h
-    | q =>
-      cases args with
-      | nil => simp [Str.printLoop] at h; exact h.1.symm
-      | cons a as =>
-        simp only [Str.kf, Bool.and_eq_false_iff, Bool.not_eq_false', decide_eq_false_iff_not] at hk
-        simp only [Str.printLoop, Str.write] at h
-        cases hc : showText a with
-        | ok b =>
-          simp only [hc, R.isOk] at h hk
-          rcases hk with (hk | hk) | hk
-          · simp [hk] at h; exact h.1.symm
-          · by_cases hh : s.alloc.nonHeap = true
-            · simp [hh] at h; exact h.1.symm
-            · have : pos > s.s.length := by omega
-              simp [hh, this] at h
-          · cases hk
-        | raised x => simp [hc] at h; exact h.1.symm
-        | ub => simp [hc] at h
-
 /-- **C12, String: failure is atomic** — rem of an absent substring (fix 62eac2a), every reallocating operation on a stack or
     static String, wrong-typed / NULL arguments, missing `get`/`set`/Push, and `print_to` that fails at its first segment
     (a later failure is known finding F29). -/
@@ -827,17 +720,6 @@ theorem C12_range_step0_refuted :
 theorem C12_range_overflow_refuted :
     (Rng.get { start := 1, stop := 5, step := 1, scratch := 0 } (.int (2 ^ 63 - 1))).2 = .ub := by decide
 
-theorem Rng.get_shape (r : Rng) (k : Val) : ∃ sc x, r.get k = ({ r with scratch := sc }, x) := by
-  unfold Rng.get
-  dsimp only
-  repeat' split
-  all_goals (first | exact ⟨_, _, rfl⟩ | exact ⟨r.scratch, _, rfl⟩)
-
-theorem Rng.get_fields (r : Rng) (k : Val) :
-    (r.get k).1.start = r.start ∧ (r.get k).1.stop = r.stop ∧ (r.get k).1.step = r.step := by
-  obtain ⟨sc, x, h⟩ := Rng.get_shape r k
-  rw [h]; simp
-
 /-- **C12, views: a failed operation on a Slice or Zip leaves it unchanged, up to the scratch value of the Slice's range** -/
 theorem C12_failure_atomic_view (σ : Store) (o o' : Obj) (op : Op) (e : Exc) (hv : o.isView = true)
     (h : viewStep σ o op = (o', .raised e)) : o'.view = o.view := by
@@ -880,16 +762,7 @@ theorem C12_failure_atomic_view (σ : Store) (o o' : Obj) (op : Op) (e : Exc) (h
 
 /-! ## every object of a store -/
 
-/-- territory of the known findings for an object -/
-def Obj.kf : Obj → Op → Bool
-  | .arr a, op => a.kf op
-  | .lst l, op => l.kf op
-  | .tab t, op => t.kf op
-  | .tre t, op => t.kf op
-  | .str s, op => s.kf op
-  | _, _ => false
-
-theorem Obj.stepLocal_atomic (o o' : Obj) (op : Op) (e : Exc) (hk : o.kf op = false)
+theorem C12_failure_atomic_object (o o' : Obj) (op : Op) (e : Exc) (hk : o.kf op = false)
     (h : o.stepLocal op = (o', .raised e)) : o'.view = o.view := by
   cases o with
   | arr a =>
@@ -942,24 +815,176 @@ theorem Obj.stepLocal_atomic (o o' : Obj) (op : Op) (e : Exc) (hk : o.kf op = fa
   | slc s => simp [Obj.stepLocal] at h
   | zip z => simp [Obj.stepLocal] at h
 
-theorem Store.put_view (σ : Store) (id : Nat) (o o' : Obj) (hget : σ.get? id = some o) (hv : o'.view = o.view) :
-    (σ.put id o').view = σ.view := by
-  induction σ with
-  | nil => simp [Store.get?] at hget
-  | cons p ps ih =>
-    obtain ⟨pid, po⟩ := p
-    simp only [Store.get?, List.lookup_cons] at hget
-    by_cases hp : pid = id
-    · subst hp
-      simp only [beq_self_eq_true] at hget
-      injection hget with hget
-      subst hget
-      simp [Store.put, Store.view, hv]
-    · have hb : (id == pid) = false := by
-        simp only [beq_eq_false_iff_ne, ne_eq]; exact fun h => hp h.symm
-      simp only [hb] at hget
-      have := ih (by simpa [Store.get?] using hget)
-      simp only [Store.view] at this ⊢
-      simp [Store.put, hp, this]
+/-- **C12 (failure is atomic, whole store).** For every store of objects (arrays, lists, heap and stack tuples, tables, trees,
+    heap/stack/static strings, ranges, slices, zips, plain values), every object and every operation outside the territories
+    of the known findings: if the operation raises, the observable state of **every** object of the store — contents, length,
+    types, allocation class — is what it was before the call.  (Erased by `view`: `nslots` of Array/Table and the scratch Int
+    of a Range; the per-type theorems above say exactly when those can differ: only `Table_Set` on a slot-less table and
+    `Slice_Get` whose inner `Range_Get` succeeded.) -/
+theorem C12_failure_atomic (σ σ' : Store) (id : Nat) (op : Op) (e : Exc)
+    (hk : kf σ id op = false) (h : step σ id op = (σ', .raised e)) : σ'.view = σ.view := by
+  unfold step at h
+  unfold kf at hk
+  cases hg : σ.get? id with
+  | none => simp [hg] at h
+  | some o =>
+    simp only [hg] at h hk
+    by_cases hv : o.isView = true
+    · simp only [hv, if_true] at h
+      rcases hs : viewStep σ o op with ⟨o', r⟩
+      rw [hs] at h; simp only [Prod.mk.injEq] at h; obtain ⟨h1, h2⟩ := h; subst h1; subst h2
+      exact Store.put_view σ id o o' hg (C12_failure_atomic_view σ o o' op e hv hs)
+    · simp only [hv, Bool.false_eq_true, if_false] at h
+      rcases hs : o.stepLocal op with ⟨o', r⟩
+      rw [hs] at h; simp only [Prod.mk.injEq] at h; obtain ⟨h1, h2⟩ := h; subst h1; subst h2
+      exact Store.put_view σ id o o' hg (C12_failure_atomic_object o o' op e hk hs)
+
+theorem C12_failure_atomic_object_exact (o o' : Obj) (op : Op) (e : Exc) (hk : o.kf op = false) (hx : o.exact = true)
+    (h : o.stepLocal op = (o', .raised e)) : o' = o := by
+  cases o with
+  | arr a =>
+    simp only [Obj.stepLocal] at h
+    rcases hs : a.step op with ⟨a', r⟩
+    rw [hs] at h; simp only [Prod.mk.injEq] at h; obtain ⟨h1, h2⟩ := h; subst h1; subst h2
+    rw [C12_failure_atomic_array a a' op e hk hs]
+  | lst l =>
+    simp only [Obj.stepLocal] at h
+    rcases hs : l.step op with ⟨l', r⟩
+    rw [hs] at h; simp only [Prod.mk.injEq] at h; obtain ⟨h1, h2⟩ := h; subst h1; subst h2
+    rw [C12_failure_atomic_list l l' op e hk hs]
+  | tup t =>
+    simp only [Obj.stepLocal] at h
+    rcases hs : t.step op with ⟨t', r⟩
+    rw [hs] at h; simp only [Prod.mk.injEq] at h; obtain ⟨h1, h2⟩ := h; subst h1; subst h2
+    rw [C12_failure_atomic_tuple t t' op e hs]
+  | tab t =>
+    simp only [Obj.stepLocal] at h
+    rcases hs : t.step op with ⟨t', r⟩
+    rw [hs] at h; simp only [Prod.mk.injEq] at h; obtain ⟨h1, h2⟩ := h; subst h1; subst h2
+    obtain ⟨_, _, _, hne, _⟩ := C12_failure_atomic_table t t' op e hk hs
+    rw [hne (by simpa [Obj.exact] using hx)]
+  | tre t =>
+    simp only [Obj.stepLocal] at h
+    rcases hs : t.step op with ⟨t', r⟩
+    rw [hs] at h; simp only [Prod.mk.injEq] at h; obtain ⟨h1, h2⟩ := h; subst h1; subst h2
+    rw [C12_failure_atomic_tree t t' op e hk hs]
+  | str s =>
+    simp only [Obj.stepLocal] at h
+    rcases hs : s.step op with ⟨s', r⟩
+    rw [hs] at h; simp only [Prod.mk.injEq] at h; obtain ⟨h1, h2⟩ := h; subst h1; subst h2
+    rw [C12_failure_atomic_string s s' op e hk hs]
+  | rng r =>
+    simp only [Obj.stepLocal] at h
+    rcases hs : r.step' op with ⟨r', x⟩
+    rw [hs] at h; simp only [Prod.mk.injEq] at h; obtain ⟨h1, h2⟩ := h; subst h1; subst h2
+    rw [C12_failure_atomic_range r r' op (.raised e) (by simp) hs]
+  | scalar a v =>
+    cases op with
+    | assign w =>
+      simp only [Obj.stepLocal] at h
+      repeat' split at h
+      all_goals simp_all
+    | print pos fmt args =>
+      cases fmt with
+      | nil => simp [Obj.stepLocal] at h
+      | cons it rest => cases it <;> simp [Obj.stepLocal] at h <;> exact h.1.symm
+    | _ => simp [Obj.stepLocal] at h <;> exact h.1.symm
+  | slc s => simp [Obj.stepLocal] at h
+  | zip z => simp [Obj.stepLocal] at h
+
+/-- **C12 (failure is atomic, exactly).** If the object operated on is not a slot-less Table and not a Slice, a failed operation
+    outside the known findings returns the very same store: nothing at all has changed, capacities and scratch values included. -/
+theorem C12_failure_atomic_exact (σ σ' : Store) (id : Nat) (op : Op) (e : Exc) (o : Obj)
+    (hg : σ.get? id = some o) (hx : o.exact = true)
+    (hk : kf σ id op = false) (h : step σ id op = (σ', .raised e)) : σ' = σ := by
+  unfold step at h
+  unfold kf at hk
+  simp only [hg] at h hk
+  by_cases hv : o.isView = true
+  · simp only [hv, if_true] at h
+    rcases hs : viewStep σ o op with ⟨o', r⟩
+    rw [hs] at h; simp only [Prod.mk.injEq] at h; obtain ⟨h1, h2⟩ := h; subst h1; subst h2
+    cases o with
+    | zip z => rw [viewStep_zip_eq σ z o' op _ hs]; exact Store.put_same σ id _ hg
+    | slc s => simp [Obj.exact] at hx
+    | _ => simp [Obj.isView] at hv
+  · simp only [hv, Bool.false_eq_true, if_false] at h
+    rcases hs : o.stepLocal op with ⟨o', r⟩
+    rw [hs] at h; simp only [Prod.mk.injEq] at h; obtain ⟨h1, h2⟩ := h; subst h1; subst h2
+    rw [C12_failure_atomic_object_exact o o' op e hk hx hs]
+    exact Store.put_same σ id o hg
+
+/-- **C12 (then usable).** After a failed operation (outside the known findings; object not a slot-less Table / Slice) every
+    further operation on every object of the store — the one that failed and all others, views over it included — behaves
+    exactly as it would have on the original store: same result, same exception, same resulting store. -/
+theorem C12_then_usable (σ σ' : Store) (id : Nat) (op : Op) (e : Exc) (o : Obj)
+    (hg : σ.get? id = some o) (hx : o.exact = true)
+    (hk : kf σ id op = false) (h : step σ id op = (σ', .raised e)) :
+    ∀ (id2 : Nat) (op2 : Op), step σ' id2 op2 = step σ id2 op2 := by
+  intro id2 op2
+  rw [C12_failure_atomic_exact σ σ' id op e o hg hx hk h]
+
+/-- the slot-less Table: after a failed `set` the table has one slot and no public operation can tell the difference — every
+    further operation gives the same result and the same contents and types (and the same slot count as soon as something is stored) -/
+theorem C12_then_usable_table (t t' : Tab) (op : Op) (e : Exc) (hw : t.wf)
+    (hk : t.kf op = false) (h : t.step op = (t', .raised e)) :
+    ∀ op2 : Op, (t'.step op2).2 = (t.step op2).2 ∧ (t'.step op2).1.items = (t.step op2).1.items ∧
+      (t'.step op2).1.kty = (t.step op2).1.kty ∧ (t'.step op2).1.vty = (t.step op2).1.vty := by
+  intro op2
+  obtain ⟨_, _, _, hne, h0⟩ := C12_failure_atomic_table t t' op e hk h
+  by_cases hz : t.nslots = 0
+  · rcases h0 hz with heq | heq
+    · subst heq; exact ⟨rfl, rfl, rfl, rfl⟩
+    · subst heq
+      have hi : t.items = [] := hw.1 hz
+      have h1 : idealSize 0 = 1 := by decide
+      cases op2 with
+      | get k => simp only [Tab.step, Tab.get, hz, hi, h1]; cases castTo t.kty k <;> simp [hi]
+      | mem k => simp only [Tab.step, Tab.mem, hz, hi, h1]; cases castTo t.kty k <;> simp [hi]
+      | rem k => simp only [Tab.step, Tab.rem, hz, hi, h1]; cases castTo t.kty k <;> simp [hi]
+      | set k v =>
+        simp only [Tab.step, Tab.set, hz, hi, h1]
+        cases castTo t.kty k <;> cases castTo t.vty v <;> simp [hi]
+      | resize n =>
+        simp only [Tab.step, Tab.resize, hz, hi, h1]
+        by_cases hn : n = 0 <;> simp [hn, hi]
+      | assign v => cases v <;> simp [Tab.step, Tab.assign]
+      | print pos fmt args =>
+        cases fmt with
+        | nil => simp [Tab.step]
+        | cons it rest => cases it <;> simp [Tab.step]
+      | _ => simp [Tab.step]
+  · rw [hne hz]; exact ⟨rfl, rfl, rfl, rfl⟩
+
+/-! ## calls that do not reach a class method -/
+
+/-- a method call on NULL raises ValueError (`Type_Of(NULL)`) — there is no object to change -/
+theorem C12_null_call : nullCall = .raised .ValueError := rfl
+
+/-- `cast` to another type raises ValueError, to the object's own type succeeds; the object is not touched (pure) -/
+theorem C12_cast_raises_exactly (o : Obj) (name : String) :
+    (castObj o name).exc? = if o.typeName = name then none else some .ValueError := by
+  unfold castObj; split <;> simp [R.exc?]
+
+/-- `dealloc` of an object that is not on the heap — static, on the stack, or inside a container — raises ResourceError -/
+theorem C12_dealloc_raises_exactly (a : AllocK) (h : a ≠ .heap) : deallocObj a = .raised .ResourceError := by
+  cases a <;> simp_all [deallocObj]
+
+/-- an operation whose class (or member) the type does not implement raises ClassError and leaves the object alone:
+    Push/Concat on Table and Tree, get/set/Push on String, set/rem/Push/Resize/Concat on Range, everything on a plain Int. -/
+theorem C12_unimplemented_class_error :
+    (∀ (t : Tab) (v k : Val), t.step (.push v) = (t, .raised .ClassError) ∧ t.step .pop = (t, .raised .ClassError) ∧
+        t.step (.pushAt v k) = (t, .raised .ClassError) ∧ t.step (.popAt k) = (t, .raised .ClassError) ∧
+        t.step (.append v) = (t, .raised .ClassError)) ∧
+    (∀ (t : Tre) (v k : Val), t.step (.push v) = (t, .raised .ClassError) ∧ t.step .pop = (t, .raised .ClassError) ∧
+        t.step (.pushAt v k) = (t, .raised .ClassError) ∧ t.step (.popAt k) = (t, .raised .ClassError) ∧
+        t.step (.append v) = (t, .raised .ClassError)) ∧
+    (∀ (s : Str) (v k : Val), s.step (.get k) = (s, .raised .ClassError) ∧ s.step (.set k v) = (s, .raised .ClassError) ∧
+        s.step (.push v) = (s, .raised .ClassError) ∧ s.step .pop = (s, .raised .ClassError)) ∧
+    (∀ (r : Rng) (v k : Val) (n : Nat), r.step' (.set k v) = (r, .raised .ClassError) ∧ r.step' (.rem v) = (r, .raised .ClassError) ∧
+        r.step' (.push v) = (r, .raised .ClassError) ∧ r.step' (.resize n) = (r, .raised .ClassError)) ∧
+    (∀ (a : AllocK) (i : Int) (k : Val), (Obj.scalar a (.int i)).stepLocal (.get k) = (.scalar a (.int i), .raised .ClassError) ∧
+        (Obj.scalar a (.int i)).stepLocal .len = (.scalar a (.int i), .raised .ClassError)) := by
+  refine ⟨?_, ?_, ?_, ?_, ?_⟩ <;> intros <;> simp [Tab.step, Tre.step, Str.step, Rng.step', Obj.stepLocal]
 
 end Cello.Fail
